@@ -172,7 +172,12 @@ class ProtocolMixin(object):
         return cls, inst
 
     def set_app(self, value):
-        assert self.__app is None, "One protocol instance should belong to one " \
+        # Binding an instance again to the application it already belongs to is
+        # harmless. It does happen: MethodContext.set_out_protocol() tests
+        # ``prot.app is None`` and then binds, without a lock, so two requests
+        # that switch to the same shared instance at the same time both bind it.
+        assert self.__app is None or self.__app is value, \
+                                   "One protocol instance should belong to one " \
                                    "application instance. It currently belongs " \
                                    "to: %r" % self.__app
         self.__app = value
